@@ -33,6 +33,7 @@ type Profile struct {
 	NoTemplateValues   bool // templates without placeholders
 	FixedSizes         bool // a symbol always has the same declared size
 	CatchVariants      bool // _catch nodes other than the plain "back" one
+	First              bool // the application has a "_first" function (installed when Config.First is set)
 }
 
 func DefaultProfile() Profile {
@@ -94,6 +95,27 @@ func Generate(r *vk.RNG, p Profile) *App {
 			codes = append(codes, vk.Pick(r, pool))
 		}
 		a.Funcs["slang"] = &FuncSpec{Sym: "slang", Kind: "lang", Codes: codes, FlagSet: [][]uint32{{7}}}
+	}
+	if p.First {
+		f := &FuncSpec{Sym: "_first", Kind: "id"}
+		if len(g.flags) > 0 {
+			f.FlagSet = [][]uint32{{vk.Pick(r, g.flags)}, {}, {vk.Pick(r, g.flags)}}
+			f.FlagReset = [][]uint32{{}, {vk.Pick(r, g.flags)}}
+		}
+		if p.Hostile {
+			f.FlagSet = append(f.FlagSet, []uint32{uint32(r.Intn(6)), 8})
+		}
+		if p.Terminate && r.Chance(1, 3) {
+			k := r.Range(2, 6)
+			sets := make([][]uint32, k)
+			sets[k-1] = []uint32{6}
+			f.FlagSet = sets
+		}
+		if p.LoadErrors && r.Chance(1, 5) {
+			f.ErrOn = []int{r.Range(2, 4)}
+			f.ErrPeriod = 5
+		}
+		a.Funcs["_first"] = f
 	}
 	nl := r.Range(2, 5)
 	for i := 0; i < nl; i++ {
